@@ -1,0 +1,13 @@
+//go:build verif
+
+package nilness
+
+// Verification hooks (build tag verif): expose the unexported nilness lattice
+// so that its semilattice laws can be checked exhaustively from outside the
+// package. Not compiled into normal builds.
+
+func VerifLatticeIdent() ValueNilness { return lattice{}.Ident() }
+
+func VerifLatticeEquals(a, b ValueNilness) bool { return lattice{}.Equals(a, b) }
+
+func VerifLatticeMerge(a, b ValueNilness) ValueNilness { return lattice{}.Merge(a, b) }
